@@ -115,14 +115,23 @@ def concat(a, b):
 
 
 def to_int(s):
-    """int(s) for an all-digit SStr"""
+    """int(s) for an SStr of digits with an optional concrete sign"""
+    chars = s.chars
+    neg = False
+    if chars and isinstance(chars[0], str) and chars[0] in '+-':
+        neg = chars[0] == '-'
+        chars = chars[1:]
+    if not chars:
+        raise ValueError('invalid literal for int()')
     acc = 0
-    for c in s.chars:
+    for c in chars:
         d = char_digit(c)
         if d is None:
             raise Unsupported('int() of a symbolic string with non-digits')
         from .values import binop
         acc = binop(operator.add, binop(operator.mul, acc, 10), d)
+    if neg:
+        acc = binop(operator.sub, 0, acc)
     return acc
 
 
@@ -132,6 +141,12 @@ class SStrMethod:
 
     def invoke(self, eng, st, args, kwargs):
         s = self.s
+        if self.name == 'rstrip' and len(args) == 1 and isinstance(args[0], str) and len(args[0]) == 1 and not args[0].isdigit():
+            # stripping a concrete non-digit character: only concrete trailing characters can match
+            n = len(s)
+            while n and isinstance(s.chars[n - 1], str) and s.chars[n - 1] == args[0]:
+                n -= 1
+            return [(st, NORMAL, SStr(s.chars[:n]))]
         if self.name == 'rstrip':
             if len(args) != 1 or args[0] != '0':
                 raise Unsupported('rstrip of a symbolic string with other than "0"')
@@ -166,6 +181,32 @@ class SStrMethod:
                     outs.append((st, NORMAL, SStr(s.chars[:n - k])))
                     break
             return outs
+        if self.name in ('strip', 'lstrip') and len(args) == 1 and isinstance(args[0], str) and not any(ch.isdigit() for ch in args[0]):
+            # stripping concrete non-digit characters: symbolic characters (decimal digits) never match
+            lo, hi = 0, len(s)
+            while lo < hi and isinstance(s.chars[lo], str) and s.chars[lo] in args[0]:
+                lo += 1
+            if self.name == 'strip':
+                while hi > lo and isinstance(s.chars[hi - 1], str) and s.chars[hi - 1] in args[0]:
+                    hi -= 1
+            return [(st, NORMAL, SStr(s.chars[lo:hi]))]
         if self.name in ('lower', 'strip'):
+            if args:
+                raise Unsupported('%s with arguments on a symbolic string' % self.name)
+            if any(isinstance(c, str) and (c != c.lower() or c.isspace()) for c in s.chars):
+                raise Unsupported('%s would change a concrete character' % self.name)
             return [(st, NORMAL, s)]
+        if self.name == 'split':
+            # split on a concrete single non-digit character: symbolic characters are decimal digits and never match it
+            if len(args) != 1 or not isinstance(args[0], str) or len(args[0]) != 1 or args[0].isdigit():
+                raise Unsupported('split of a symbolic string on %r' % (args,))
+            parts, cur = [], []
+            for c in s.chars:
+                if isinstance(c, str) and c == args[0]:
+                    parts.append(SStr(cur))
+                    cur = []
+                else:
+                    cur.append(c)
+            parts.append(SStr(cur))
+            return [(st, NORMAL, parts)]
         raise Unsupported('method %s of a symbolic string' % self.name)
